@@ -14,6 +14,8 @@ func init() {
 		Assumptions: trustedBase,
 		Run: func(m *Model, s *Sink) {
 			m.RunResponse(s, "R-RESPONSE")
+			// a failing sub-expression must fail the render (or the body of a "successful" response carries the error text and path)
+			m.RunEvalErr(s, "R-EVALERR")
 			// nothing a failed (or debug-mode) response leaves behind may reach a later response
 			if resp := m.Method("textwire", "Template", "Response"); resp != nil {
 				m.RunSharedWrites(s, "R-SHARED", []*ssa.Function{resp}, "history")
